@@ -54,6 +54,8 @@ let () =
       if nv = 'd' then fail id "SPEC" "process_death" (trunc (Printf.sprintf "fmt=%s len=%d input=%s %s" fmt len short msg));
       if nv = 'p' || v = 'p' || String.contains adapt 'p' then
         fail id "SPEC" "panic" (trunc (Printf.sprintf "fmt=%s len=%d input=%s nv=%c v=%c adapters=%s %s" fmt len short nv v adapt msg));
+      if String.contains adapt 'x' then
+        fail id "SPEC" "twkb_size_out_of_range" (trunc (Printf.sprintf "input=%s %s" short msg));
       if valid = 'p' then fail id "SPEC" "validate_panic" (trunc (Printf.sprintf "fmt=%s input=%s %s" fmt short msg));
       if nv_alloc > bound 1 then
         fail id "SPEC" "alloc" (Printf.sprintf "fmt=%s NoValidate len=%d allocated=%d bound=%d input=%s" fmt len nv_alloc (bound 1) short);
